@@ -117,7 +117,10 @@ def cfg_case(draw):
     cs = draw(classgen.class_spec(max_params=4, max_cmds=1, depth=1))
     for p in cs['params']:
         p.pop('limits', None)
+        p.pop('limits_in_subclass', None)
         p.pop('check', None)
+        if p['T']['k'] in ('double', 'int') and not p.get('readonly') and not p.get('constant') and draw(st.integers(0, 3)) == 0:
+            p['limits'] = 'max'      # a limit parameter <name>_max: its datatype comes from the (configured) base parameter
         if p.get('constant'):
             p['constant'] = False
             p['readonly'] = True
@@ -171,6 +174,16 @@ def cfg_case(draw):
         if draw(st.booleans()):
             items.reverse()
         cfg[p['name']] = {'$order': [k for k, _ in items], **dict(items)}
+    for p in cs['params']:
+        if p.get('limits') and not p.get('constant') and p.get('export') is True and draw(st.booleans()):
+            ent = cfg.get(p['name'])
+            T2 = override_T(p['T'], {k: v for k, v in (ent or {}).items() if k not in ('$order', 'value', 'default')})
+            how = draw(st.sampled_from(['valid', 'valid', 'wrong-type', 'unknown-prop']))
+            lent = {'$order': ['value'], 'value': draw(specs.valid_value(T2, True)) if how != 'wrong-type' else draw(st.sampled_from(['abc', [1], None]))}
+            if how == 'unknown-prop':
+                lent['zzlim'] = 1
+                lent['$order'] = draw(st.sampled_from([['value', 'zzlim'], ['zzlim', 'value']]))
+            cfg[p['name'] + '_max'] = lent
     # injected errors
     for _ in range(draw(st.sampled_from([0, 0, 0, 1, 1, 2, 3]))):
         kind = draw(st.sampled_from(['unknown-name', 'unknown-prop', 'bad-prop', 'no-description', 'inverted', 'writable-without-method']))
@@ -269,7 +282,15 @@ def consistent(cs):
 def derive_errors(cs, cfg):
     """the configuration errors present in cfg - derived, so that a (shrunk) case is always judged by what it contains"""
     errors = []
-    names = {p['name'] for p in cs['params']} | {c['name'] for c in cs.get('cmds', [])}
+    names = {p['name'] for p in cs['params']} | {c['name'] for c in cs.get('cmds', [])} | {p['name'] + '_max' for p in cs['params'] if p.get('limits')}
+    for p in cs['params']:
+        lent = cfg.get(p['name'] + '_max')
+        if p.get('limits') and isinstance(lent, dict):
+            for k in lent:
+                if k != '$order' and k not in PARAM_PROPS | DT_PROPS.get(p['T']['k'], set()):
+                    errors.append({'kind': 'unknown-prop', 'needle': k})
+            if 'value' in lent and (lent['value'] is None or value_class(p['T'], lent['value'])[0] == 'wrongtype'):
+                errors.append({'kind': 'limit-wrong-type', 'needle': p['name'] + '_max'})
     if 'description' not in cfg:
         errors.append({'kind': 'no-description', 'needle': 'description'})
     for key, ent in cfg.items():
@@ -420,6 +441,15 @@ def check_cfg(ctx, case):
                             f'{name} = {info["value"]!r}: cache {cache!r}, readerror {pobj.readerror!r}, order {cfg[name].get("$order")}')
             else:
                 ctx.ok('configured-value-in-cache')
+    for p in cs['params']:
+        lent = cfg.get(p['name'] + '_max')
+        if p.get('limits') and isinstance(lent, dict) and 'value' in lent:
+            got = rm.canon(getattr(mobj, p['name'] + '_max'))
+            T2 = plan[p['name']]['T2'] if p['name'] in plan else p['T']
+            if value_class(T2, lent['value'])[0] == 'valid' and rm.denotes(T2, lent['value'], None, got, 'drv'):
+                ctx.finding('configured-limit-not-applied', case, f'{p["name"]}_max = {lent["value"]!r}: cache {got!r}')
+            else:
+                ctx.ok('configured-limit-in-cache')
     # start-up: configured values of parameters with a write method are written exactly once, before the first read
     nbefore = len(rec['calls'])
     with contextlib.redirect_stdout(io.StringIO()):
@@ -437,6 +467,9 @@ def check_cfg(ctx, case):
             else:
                 ctx.ok('default-not-written')
         elif p.get('write'):
+            lim = cfg.get(name + '_max') if p.get('limits') else None
+            if isinstance(lim, dict) and rm.isnum(lim.get('value')) and rm.isnum(info['value']) and info['value'] > lim['value']:
+                continue    # start value above the configured limit: the write is refused by the limit check (logged): either
             if info['vclass'] == 'range':
                 continue    # the write wrapper refuses out-of-range values at start-up (logged): either
             if len(writes) != 1:
@@ -467,6 +500,8 @@ def check_cfg(ctx, case):
                 continue
             ctx.ev()
             r = kit.request(conn, ('change', f'm0:_{name}', x))
+            if p.get('limits') and rm.isnum(x) and not isinstance(x, bool) and x >= getattr(mobj, name + '_max') - abs(getattr(mobj, name + '_max')) * 1e-9 - 1e-300:
+                continue     # at or above the dynamic limit: C04/C18 judge that
             if (r[0] == 'changed') != (st_ == 'A'):
                 ctx.finding(f'later-change-ignores-override:{T2["k"]}:{why or "valid"}', dict(case, x=x), f'{x!r}: {r[:1]} {str(r[2])[:100]}')
             else:
